@@ -9,8 +9,10 @@ import (
 	"log/slog"
 	"net/http"
 	"net/http/httptest"
+	"net/url"
 	"path"
 	"strconv"
+	"strings"
 	"sync"
 	"sync/atomic"
 	"time"
@@ -97,6 +99,13 @@ func (cm *cmafIngesterMgr) NewCmafIngester(req CmafIngesterSetup) (nr uint64, er
 
 	log := slog.Default().With(slog.Uint64("ingester", nr))
 
+	// httptest.NewRequest panics on a target that is not a valid request URI
+	if _, err := url.ParseRequestURI(req.URL); err != nil {
+		return 0, fmt.Errorf("invalid livesim URL: %w", err)
+	}
+	if strings.Contains(req.URL, " ") {
+		return 0, fmt.Errorf("invalid livesim URL: contains a space")
+	}
 	mpdReq := httptest.NewRequest("GET", req.URL, nil)
 	if req.TestNowMS != nil {
 		mpdReq.URL.RawQuery = fmt.Sprintf("nowMS=%d", *req.TestNowMS)
